@@ -400,7 +400,8 @@ def rules(ctx):
             rf = [x for x in f.frees if x['arg'].startswith(tv + '[')]
             tf = [x for x in f.frees if x['arg'] == tv]
             ok = len(rf) == 1 and len(rf[0]['loops']) == 1 and als[0]['loops'] and \
-                nsp(rf[0]['loops'][0]['hi']) == nsp(als[0]['loops'][-1]['hi']) and bool(tf) and \
+                nsp(rf[0]['loops'][0]['hi']) == nsp(als[0]['loops'][-1]['hi']) and \
+                nsp(rf[0]['loops'][0]['lo']) == nsp(als[0]['loops'][-1]['lo']) and rf[0]['loops'][0]['op'] == als[0]['loops'][-1]['op'] and bool(tf) and \
                 [id(x) for x in f.frees].index(id(rf[0])) < [id(x) for x in f.frees].index(id(tf[0]))      # order of occurrence
             ctx.inst('M2', (f.unit, f.name), 'rows of %s' % tv, ok,
                      "rows freed in a loop over the allocation bound, before the table" if ok else
